@@ -96,7 +96,7 @@ def gen_exp(rng, depth, rules, F, pats=None):
     if r < 0.78 and F['la']:
         return (LA if rng.random() < .5 else NLA)(sub())
     if r < 0.84 and F['names']:
-        return (Named if rng.random() < .7 else NamedList)(rng.choice(['n', 'm', 'k']), sub())
+        return (Named if rng.random() < .7 else NamedList)(rng.choice(F.get('name_pool') or ['n', 'm', 'k']), sub())
     if r < 0.87 and F['over']:
         return (Over if rng.random() < .7 else OverList)(sub())
     if r < 0.89 and F['skipto']:
